@@ -9,6 +9,8 @@ fn mul(self, rhs: FBig<R, B>) -> Self::Output
         isize::MIN <= self.repr.exponent + rhs.repr.exponent <= isize::MAX,
         self.repr.exponent + rhs.repr.exponent + ndigits(B as int, self.repr.significand.v() * rhs.repr.significand.v()) <= isize::MAX,
         ndigits(B as int, self.repr.significand.v() * rhs.repr.significand.v()) <= isize::MAX,
+        // resource limit: exponent overflow is a documented panic (C16), not modelled (digit position of the split in repr_round)
+        pos_room(ndigits(B as int, self.repr.significand.v() * rhs.repr.significand.v()) as int),
     ensures
         // C03 / C15 (the same statement for the four operand forms): the value of ONE correct rounding of the exact
         // product at the larger of the two precisions
